@@ -263,11 +263,18 @@ def work(a):
                 order2 = [tuple(k for k, _ in xs) for xs in img2.xattr_sets]
                 order3 = [tuple(k for k, _ in xs) for xs in img3.xattr_sets] if img3.ok() else None
                 only_order = multi and sem_equal and order3 is not None and sorted(map(sorted, order2)) == sorted(map(sorted, order3)) and order2 != order3
-                suffix = ":only-xattr-order-within-a-set" if only_order else ""
+                # tar1 is the listing of img1, tar2 the listing of img2: the same experiment one generation earlier (the xattr writer numbers
+                # keys in order of first appearance and stores a set sorted by those numbers, so the reversal per pass may die out at img2
+                # == img3 while tar1 != tar2 still shows it)
+                order1 = [tuple(k for k, _ in xs) for xs in img.xattr_sets]
+                multi1 = any(len(xs) >= 2 for xs in img.xattr_sets)
+                only_order_t = multi1 and set(order1) != set(order2) and \
+                    sorted(tuple(sorted(xs)) for xs in img.xattr_sets) == sorted(tuple(sorted(xs)) for xs in img2.xattr_sets) and \
+                    tar_semantic(os.path.join(s, "tar1.tar")) == tar_semantic(os.path.join(s, "tar2.tar"))
                 if tdiff:
-                    V("fixpoint-tar-differs" + suffix, "tar2 != tar1", 3)
+                    V("fixpoint-tar-differs" + (":only-xattr-order-within-a-set" if (only_order or only_order_t) else ""), "tar2 != tar1", 3)
                 if idiff:
-                    V("fixpoint-image-differs" + suffix, "img3 != img2", 3)
+                    V("fixpoint-image-differs" + (":only-xattr-order-within-a-set" if only_order else ""), "img3 != img2", 3)
             res["stages"]["fixpoint"] = 1
     except Exception as e:
         import traceback
@@ -279,6 +286,17 @@ PROFILES = [{"nfiles": 6, "ndirs": 2}, {"nfiles": 6, "ndirs": 3, "xattrs": True}
             {"nfiles": 8, "ndirs": 2, "big": True}, {"nfiles": 4, "ndirs": 1, "dialect": "v7", "sparse": False},
             {"nfiles": 5, "ndirs": 2, "dialect": "ustar", "sparse": False}, {"nfiles": 5, "ndirs": 2, "dialect": "gnu"},
             {"nfiles": 5, "ndirs": 2, "dialect": "pax", "xattrs": True}]
+
+
+def tar_semantic(path):
+    """member list with the extended header records of each member sorted: equal for two archives that differ only in record order"""
+    import tarfile, hashlib
+    out = []
+    with tarfile.open(path, "r:", errors="surrogateescape") as t:
+        for m in t:
+            h = hashlib.sha256(t.extractfile(m).read()).hexdigest() if m.isreg() else None
+            out.append((m.name, m.type, m.size, m.mtime, m.uid, m.gid, m.mode, m.linkname, m.devmajor, m.devminor, tuple(sorted(m.pax_headers.items())), h))
+    return out
 
 
 def replay(spec, bdir=None):
